@@ -59,6 +59,46 @@ func main() {
 			res.Evaluations, res.DistinctNontrivial, res.OpsExecuted, res.DisagreementCount, res.MonitorHitCount, len(res.TwinMismatches), res.TwinRuns, res.HashReplays)
 	case "smoke":
 		smoke()
+	case "replay":
+		fs := flag.NewFlagSet("replay", flag.ExitOnError)
+		_ = fs.String("driver", "", "path to olpdriver")
+		seed := fs.Uint64("seed", 1, "seed")
+		hist := fs.Int("histories", 10, "histories")
+		blocks := fs.Int("blocks", 10, "blocks per history")
+		maxtx := fs.Int("maxtxs", 6, "max txs per block")
+		out := fs.String("out", "", "result json")
+		fs.Parse(os.Args[2:])
+		stdout := apph.SilenceAppLogs()
+		res, err := apph.RunReplay(*seed, *hist, *blocks, *maxtx)
+		apph.Cleanup()
+		if err != nil {
+			fmt.Fprintln(stdout, "olh replay:", err)
+			os.Exit(2)
+		}
+		if *out != "" {
+			kv.WriteResult(*out, res)
+		}
+		fmt.Fprintf(stdout, "replay: cases=%d nontrivial=%d monitor=%v counters=%v\n", res.Evaluations, res.DistinctNontrivial, res.MonitorHitCount, res.Counters)
+	case "shell":
+		fs := flag.NewFlagSet("shell", flag.ExitOnError)
+		driver := fs.String("driver", "", "path to olpdriver")
+		seed := fs.Uint64("seed", 1, "seed")
+		hist := fs.Int("histories", 10, "histories")
+		blocks := fs.Int("blocks", 10, "blocks per history")
+		maxtx := fs.Int("maxtxs", 6, "max txs per block")
+		out := fs.String("out", "", "result json")
+		fs.Parse(os.Args[2:])
+		stdout := apph.SilenceAppLogs()
+		res, err := apph.RunShellTrace(*driver, *seed, *hist, *blocks, *maxtx)
+		apph.Cleanup()
+		if err != nil {
+			fmt.Fprintln(stdout, "olh shell:", err)
+			os.Exit(2)
+		}
+		if *out != "" {
+			kv.WriteResult(*out, res)
+		}
+		fmt.Fprintf(stdout, "shell: cases=%d nontrivial=%d disagreements=%d counters=%v\n", res.Evaluations, res.DistinctNontrivial, res.DisagreementCount, res.Counters)
 	case "twin", "dropfailed", "inject", "crash":
 		fs := flag.NewFlagSet(os.Args[1], flag.ExitOnError)
 		_ = fs.String("driver", "", "path to olpdriver")
